@@ -275,6 +275,13 @@ func (p *verifPrincipal) call(f func() ([]byte, []ValidMessage, error)) (res ver
 	}
 	res.Events = p.Rec.take()
 	verifNormTimes(p.C)
+	if verifTraceOn {
+		fmt.Printf("   call on %s: plain=%q err=%q events=[%s] out=", p.Name, verifTrunc(res.Plain), res.Err, verifEventsString(res.Events))
+		for _, o := range res.Out {
+			fmt.Printf("[%s]", verifMsgKind(o))
+		}
+		fmt.Println()
+	}
 	return
 }
 
